@@ -28,7 +28,7 @@ META = {
         'quick': {'prunes-compared': 2000, 'class:adjacent-prunable-run>=2': 500, 'class:adjacent-prunable-run>=4': 100,
                   'class:prunable-compromised': 200, 'class:prunable-entry-point': 100, 'class:double-edge-at-prunable': 90,
                   'class:labels-from-analysis': 100, 'class:generated-graph': 40, 'class:nothing-to-prune': 100,
-                  'class:non-or-and-with-false-label-kept': 200},
+                  'class:non-or-and-with-false-label-kept': 200, 'class:node-list-not-ordered-by-id': 100},
         'thorough': {'prunes-compared': 600000, 'class:adjacent-prunable-run>=4': 10000, 'class:generated-graph': 5000},
     },
 }
@@ -103,7 +103,9 @@ def check_graph(g, res, count=True, ever_atts=()):
 def _check_desc(case, res, count=True):
     from maltoolbox.attackgraph import Attacker
     from maltoolbox.attackgraph.analyzers.apriori import calculate_viability_and_necessity
-    g, objs = agraph.build(case['desc'])
+    g, objs = agraph.build(case['desc'], ids=case.get('ids'))
+    if case.get('ids') and count:
+        res.count('class:node-list-not-ordered-by-id')
     if case.get('analyse'):
         calculate_viability_and_necessity(g)
         if count:
@@ -230,6 +232,10 @@ def run(rng, res, tier, shard, nshards):
             break
         case = gen_random(rng)
         case['kind'] = 'desc'
+        if rng.random() < 0.3:
+            ids = list(range(len(case['desc']['nodes'])))
+            rng.shuffle(ids)
+            case['ids'] = [i * 2 for i in ids]        # as after loading a file that lists the nodes in another order
         if rng.random() < 0.2:
             # labels from the real analysis on an unlabelled graph
             d = agraph.gen_desc(rng, rng.choice([5, 10, 25]))
